@@ -18,6 +18,27 @@ CHECKS = {
  "C09": dict(
    text="Theorems C09_roundtrip / C09_roundtrip_any / C09_roundtrip_phys / C09_descriptors_ok: the structures are data (descriptors in coq/Schema.v interpreted by one generic writer and one generic reader that follow the shape of every X::write / X::read); proved once, by mutual induction over descriptors, for EVERY descriptor with pairwise distinct keys and EVERY well-typed value: what write produces (through the real encoder model: staging buffer, flushes; C06) is the serialisation of one well-formed tree, its return value is the byte count, and read returns the value member for member (absent stays absent, present-but-empty stays present, vectors in order), leaving following bytes untouched, at any position relative to the decoder window. Instantiated on FilePreamble/BlockParameters/StorageParameters/StorageHints/CollectionParameters (side conditions by vm_compute). Tie: correspondence - random preambles written and read back by the real classes and by the extracted model (bytes, return values, decoded members compared exactly) + independent Python encoder/interpreter as oracle.",
    ref="DESIGN.md 3.9", note="The descriptors are hand-written from the C++ (trusted, validated by the correspondence run on every check)."),
+ "C01": dict(
+   text="Theorems C01_block_bytes_roundtrip (any well-typed block value written through the encoder model is read back equal by the generic structure reader, following bytes untouched), C01_records_kept / C01_aec_totals (each API call appends exactly the stored form of its record to 'written blocks ++ buffered block'; AEC totals +1 per accepted call), C01_index_denotes (an index handed out by a table denotes the value in every later state of the block), C01_statistics; C01_nonvacuous runs export -> bytes -> read_file -> read_generic_qr inside Coq. The composition of the layers into one end-to-end theorem over histories is NOT proved (partial); it is checked on every run by the correspondence and by two readers (library + independent Python RFC reader). Tie: correspondence - generated API histories run through the real CdnsExporter/CdnsReader (memfd outputs, ASan/UBSan) and through the extracted model: every return value, counter, output byte (address-event arrays order-canonicalised) and the reader's record dump compared; independent Python oracle (specification-level exporter simulation + strict RFC 8949/8618 parser) names the failing history.",
+   ref='DESIGN.md 3.1', note='Partial: end-to-end composition, the independent-reader clause and time-offset exactness at block level (C17) are validated, not proved.'),
+ "C02": dict(
+   text="Theorems C02_struct_one_item (for all 21 descriptors and every well-typed value the bytes written are the serialisation of exactly one well-formed item whose declared lengths equal the members present), C02_struct_skips (a generic CBOR reader consumes it exactly), C02_empty_structures, C02_empty_output (over every API history an output without a block receives zero bytes), C02_blocks_nonempty. Tie: correspondence - generated API histories run through the real CdnsExporter/CdnsReader (memfd outputs, ASan/UBSan) and through the extracted model: every return value, counter, output byte (address-event arrays order-canonicalised) and the reader's record dump compared; independent Python oracle (specification-level exporter simulation + strict RFC 8949/8618 parser) names the failing history.",
+   ref='DESIGN.md 3.2', note='Schema-validity of whole files (mandatory members, index ranges) for arbitrary histories is checked by the strict independent parser on every run; the whole-file well-formedness theorem is not composed (partial).'),
+ "C04": dict(
+   text="Theorems C04_absent (for every hint mask, record and table state a query/response member whose bit is clear is absent from the stored item: slots 0..10), C04_no_insert_member / C04_no_insert_sections (a cleared bit inserts nothing into any table), C04_other_aec / C04_other_mm (refused records change nothing and return 0), C04_preamble. Tie: correspondence - generated API histories run through the real CdnsExporter/CdnsReader (memfd outputs, ASan/UBSan) and through the extracted model: every return value, counter, output byte (address-event arrays order-canonicalised) and the reader's record dump compared; independent Python oracle (specification-level exporter simulation + strict RFC 8949/8618 parser) names the failing history.",
+   ref='DESIGN.md 3.4', note='Per-signature-member and RR-hint absence and table reachability are checked by the oracle (each of the 18+17+2+2 bits alone cleared / alone set), not proved (partial).'),
+ "C10": dict(
+   text="Theorems C10_encoder_call / C10_encoder_run (every encoder call / run returns the number of bytes by which the stream grew, any fill level), C10_struct_write (all structures: returned count = bytes written), C10_write_block_partial (a block write returns the growth of the output, header included, given operand ranges), C10_empty_output. Tie: correspondence - generated API histories run through the real CdnsExporter/CdnsReader (memfd outputs, ASan/UBSan) and through the extracted model: every return value, counter, output byte (address-event arrays order-canonicalised) and the reader's record dump compared; independent Python oracle (specification-level exporter simulation + strict RFC 8949/8618 parser) names the failing history.",
+   ref='DESIGN.md 3.10', note='The per-output sum over whole histories is checked by the oracle on every run; its theorem carries the operand-range hypothesis (partial).'),
+ "C11": dict(
+   text="Theorems C11_equality, C11_add_get, C11_idempotent, C11_nodup (invariant of every add history), C11_injective, C11_stable, C11_index_in_range, C11_build_qr / C11_build_mm (every insertion the block builder performs extends the nine tables only at their ends and keeps them duplicate-free), C11_reference_survives, C11_history (over every exporter history), C11_clear. Tie: correspondence - generated API histories run through the real CdnsExporter/CdnsReader (memfd outputs, ASan/UBSan) and through the extracted model: every return value, counter, output byte (address-event arrays order-canonicalised) and the reader's record dump compared; independent Python oracle (specification-level exporter simulation + strict RFC 8949/8618 parser) names the failing history.",
+   ref='DESIGN.md 3.11', note='Value-level table model; the reference-level behaviour (KeyRef into the deque) is C19. Hash/equality consistency of the C++ key types is validated by the correspondence (duplicate detection in parsed outputs).'),
+ "C12": dict(
+   text="Theorems C12_flush_rule, C12_conservation (qr / mm sequences and AEC totals, per API call, for all seven calls), C12_block_bound (over every history: every written block is non-empty and within max(1,max); the buffered block rests below the maximum), C12_flush_clears. Tie: correspondence - generated API histories run through the real CdnsExporter/CdnsReader (memfd outputs, ASan/UBSan) and through the extracted model: every return value, counter, output byte (address-event arrays order-canonicalised) and the reader's record dump compared; independent Python oracle (specification-level exporter simulation + strict RFC 8949/8618 parser) names the failing history.",
+   ref='DESIGN.md 3.12', note='Non-zero return iff a block was written and the counter getters are checked by the oracle (exhaustive call sequences of length 3/5 over an 8-letter alphabet x max 0..3).'),
+ "C13": dict(
+   text="Theorems C13_frozen (closed outputs never change, any later history), C13_stream (a rotation leaves the record sequence and AEC totals untouched; without export the buffered block stays buffered), C13_empty_output, C13_restart, C13_header_has_all_params. Tie: correspondence - generated API histories run through the real CdnsExporter/CdnsReader (memfd outputs, ASan/UBSan) and through the extracted model: every return value, counter, output byte (address-event arrays order-canonicalised) and the reader's record dump compared; independent Python oracle (specification-level exporter simulation + strict RFC 8949/8618 parser) names the failing history.",
+   ref='DESIGN.md 3.13', note='Same-kind rotations (fd to fd); completeness of each closed document is checked by the independent parser. Mixed-kind rotation (F16) is outside the modelled alphabet.'),
  "C17": dict(
    text="Theorems C17_offset_exact / C17_add_inverse / C17_compare_lt / C17_compare_le / C17_refuse / C17_rate0 / C17_no_ub / C17_block / C17_block_offsets over a model of Timestamp in Z with the code's int64 arithmetic made explicit (an overflowing signed operation is the distinguished outcome TUB): for every tick rate 1..10^9, all instants below 2^63 ticks and all int64 offsets (INT64_MIN included). C17_block is an invariant by induction over every add history of a block (timed/untimed records in any order). Tie: correspondence (same commands through the real Timestamp / CdnsBlock classes under UBSan and through the extracted model) + Python big-integer oracle.",
    ref="DESIGN.md 3.17", note="Hypothesis of the theorems: ticks_per_second <= 10^9 and instants < 2^63 ticks (the 'representable range' of the property)."),
